@@ -288,7 +288,8 @@ func call(car string, v reflect.Value, rules string) func() error {
 			_ = valid.StructForFn(reflect.Zero(reflect.PtrTo(st)).Interface(), valid.RM{"F": "required|leak3,in=(zz)|leak4"})
 			return valid.Struct(p.Interface())
 		}
-	case "struct-tag-after-other-tag", "struct-tag-after-call-local-functions", "struct-tag-field-70", "struct-rm-after-plain-call", "map-25-entries", "url-parameter-151-of-200":
+	case "struct-tag-after-other-tag", "struct-tag-after-call-local-functions", "struct-tag-field-70", "struct-rm-after-plain-call", "map-25-entries", "url-parameter-151-of-200",
+		string(carrier.StructWrappers), string(carrier.VarWrappers), string(carrier.MapWrappers), string(carrier.UrlWrappers):
 		return func() error {
 			s, isNil := carrier.Validate(carrier.Kind(car), v, rules)
 			if isNil {
@@ -409,16 +410,16 @@ func run(c *runner.Ctx) {
 			switch tv.v.Kind() { // Map documents scalar values only (int, float, bool, string)
 			case reflect.Slice, reflect.Array, reflect.Map, reflect.Struct, reflect.Ptr:
 			default:
-				cars = append(cars, "map", "map-iface", "map-25-entries")
+				cars = append(cars, "map", "map-iface", "map-25-entries", string(carrier.MapWrappers))
 			}
 			if carrier.TagOK(rf.rules) {
-				cars = append(cars, "struct-tag", "struct-tag-after-override", "struct-tag-after-rejected-call", "struct-tag-after-other-tag", "struct-tag-after-call-local-functions", "struct-tag-field-70")
+				cars = append(cars, "struct-tag", "struct-tag-after-override", "struct-tag-after-rejected-call", "struct-tag-after-other-tag", "struct-tag-after-call-local-functions", "struct-tag-field-70", string(carrier.StructWrappers))
 			}
 			if tv.varOK {
-				cars = append(cars, "var")
+				cars = append(cars, "var", string(carrier.VarWrappers))
 			}
 			if tv.v.Kind() == reflect.String && tv.v.Type() == reflect.TypeOf("") {
-				cars = append(cars, "url-parameter-151-of-200")
+				cars = append(cars, "url-parameter-151-of-200", string(carrier.UrlWrappers))
 			}
 			for _, car := range cars {
 				if strings.Contains(rf.rules, "exist") && !strings.HasPrefix(car, "struct-") {
